@@ -120,5 +120,7 @@ UNIT = dict(
   },
   canaries=['find_index.found', 'find_index.found_last', 'find_index.none', 'push.allocated', 'push.helped_tail', 'push.bumped_head', 'push.plain', 'push.null', 'pop.empty', 'pop.not_the_oldest',
             'pop.advanced_head', 'pop.advanced_tail', 'pop.allocated', 'committed_seq.at_head', 'committed_seq.behind_tail', 'advance_tail_seq.helped', 'advance_tail_seq.allocated', 'advance_head_seq.no_successor', 'advance_head_seq.moved_tail_too', 'advance_head_seq.plain', 'committed.taken', 'committed.at_head', 'committed.ahead', 'committed.deleted_but_head', 'committed.withdrawn', 'push_int.returned', 'pop_int.moved_tail', 'pop_int.true', 'pop_int.empty', 'advance_head_int.retired', 'advance_head_int.lost_race', 'advance_head_int.nothing', 'advance_head_int.moved_tail', 'advance_tail_int.linked', 'advance_tail_int.released_fresh', 'advance_tail_int.helped', 'advance_tail_int.nothing', 'ctor.reached', 'dri.tracked', 'dri.not_stored', 'dtor.tracked', 'dtor.not_stored', 'dtor.three_segments'],
+  replays={'kfq.push.stores': dict(src='replay_seq.cpp', fixed={'op': 0}), 'kfq.pop.empty': dict(src='replay_seq.cpp', fixed={'op': 1}),
+           'kfq.pop.oldest_segment': dict(src='replay_seq.cpp', fixed={'op': 1}), 'kfq.pop.k_oldest': dict(src='replay_seq.cpp', fixed={'op': 1})},
   loop_obligation={'PUSH': 'kfq.push.validate', 'POP': 'kfq.pop.validate'},
 )
